@@ -64,8 +64,8 @@ AllPerturb == << Pt("y", 0, "+1"), Pt("y", 1, "0"), Pt("y", 2, "other"), Pt("y",
                  Pt("lenC", 0, ""), Pt("lenY", 0, ""), Pt("lenZ", 0, ""), Pt("zero", 0, ""), Pt("splice", 0, "ipa"), Pt("splice", 0, "D"),
                  Pt("fake", 0, "zero"), Pt("fake", 1, "zero"), Pt("fake", 0, "other"), Pt("fake", 1, "atz"),
                  \* proofs forged by an adversarial prover for a statement with one false claimed value (see forgeProof in the driver)
-                 Pt("forge", 0, "dupy"), Pt("forge", 0, "dupy_first"), Pt("forge", 0, "drop0"), Pt("forge", 0, "droplast"), Pt("forge", 0, "dropz") >>
-Forges == << Pt("forge", 0, "dupy"), Pt("forge", 0, "dupy_first"), Pt("forge", 0, "drop0"), Pt("forge", 0, "droplast"), Pt("forge", 0, "dropz") >>
+                 Pt("forge", 0, "dupy"), Pt("forge", 0, "dupy_first"), Pt("forge", 0, "drop0"), Pt("forge", 0, "droplast"), Pt("forge", 0, "dropz"), Pt("forge", 0, "idlie") >>
+Forges == << Pt("forge", 0, "dupy"), Pt("forge", 0, "dupy_first"), Pt("forge", 0, "drop0"), Pt("forge", 0, "droplast"), Pt("forge", 0, "dropz"), Pt("forge", 0, "idlie") >>
 
 Labels == <<"multiproof", "test", "", "vt", "a-longer-protocol-label-0123456789">>
 MpShapes ==
@@ -97,7 +97,7 @@ MpProgs == [k \in 1 .. Len(MpSeq) |->
                arrival |-> IF Part = "mp_arrival" THEN <<"rev", "rot", "evenodd">>[(k % 3) + 1] ELSE "",
                perturb |-> IF Part # "mp_perturb" THEN <<>>
                            ELSE IF Len(MpSeq[k][1]) >= 200 THEN ManyPerturb
-                           ELSE IF Quick THEN [j \in 1 .. 8 |-> AllPerturb[((k * 8 + j + Seed) % Len(AllPerturb)) + 1]] \o (IF MpSeq[k][3] THEN Forges ELSE <<>>)
+                           ELSE IF Quick THEN [j \in 1 .. 8 |-> AllPerturb[((k * 8 + j + Seed) % Len(AllPerturb)) + 1]] \o Forges
                            ELSE AllPerturb]]
 
 Points == {"0", "1", "127", "128", "254", "255", "256", "257", "300", "65536", "2^64", "h", "r-2", "r-1", "rnd1", "rnd2"}
